@@ -478,6 +478,7 @@ fn c11_composite_glyph() {
 /// length is read from the glyph stream as soon as ANY component carries WE_HAVE_INSTRUCTIONS
 /// (not just the last one), and the glyph that follows is decoded from the right stream
 /// positions.
+// @tier thorough
 // @bound 2 glyphs: a composite with two components (byte xy arguments; WE_HAVE_INSTRUCTIONS symbolic on each) with 2 instruction bytes, then an empty glyph; symbolic glyph indices, arguments and bbox
 #[kani::proof]
 #[kani::unwind(10)]
